@@ -381,6 +381,9 @@ def _check_sdp_from_eigen(w, tol=None):
   np.linalg.matrix_rank for more details on the choice of tolerance (the same
     strategy is applied here)
   """
+  if w.dtype.kind in 'iub':
+    # e.g. the diagonal of an integer matrix: np.finfo needs a float type
+    w = w.astype(float)
   if tol is None:
     tol = np.abs(w).max() * len(w) * np.finfo(w.dtype).eps
   if tol < 0:
@@ -673,8 +676,9 @@ def _initialize_metric_mahalanobis(input, init='identity', random_state=None,
   n_features = input.shape[-1]
   if isinstance(init, np.ndarray):
     # we copy the array, so that if we update the metric, we don't want to
-    # update the init
-    init = check_array(init, copy=True)
+    # update the init (an integer matrix is converted to float: the learners
+    # update it in place with floats)
+    init = check_array(init, copy=True, dtype=[np.float64, np.float32])
 
     # Assert that init.shape[1] = n_features
     if init.shape != (n_features,) * 2:
